@@ -116,6 +116,7 @@ def run(rec):
     singlets(rec, rng)
     covering(rec, rng, quick)
     segments(rec, rng, quick)
+    exact_diag_conversions(rec, rng, quick)
     infinite(rec, rng, quick)
 
 
@@ -250,6 +251,53 @@ def segments(rec, rng, quick):
             rec.check(np.allclose(seg.entanglement_entropy(), ent_old, atol=1e-8), 'segment.canonical_form_finite:entropies-changed', '', inp)
             rec.check(abs(seg.norm - norm_old) < 1e-10, 'segment.canonical_form_finite:norm-changed', f'{norm_old} -> {seg.norm}', inp)
             rec.check(np.max(np.abs(seg.norm_test())) < 1e-8, 'segment.canonical_form_finite:norm_test', str(seg.norm_test()), inp)
+
+
+def exact_diag_conversions(rec, rng, quick):
+    """ExactDiag.mps_to_full / full_to_mps (with and without a charge sector, real and complex states): the round trip and
+    the MPS built from a full wave function denote the same state; eigenvectors of the full Hamiltonian turned into MPS"""
+    from tenpy.algorithms.exact_diag import ExactDiag
+    from tenpy.models.xxz_chain import XXZChain
+    from tenpy.models.fermions_spinless import FermionChain
+    from tenpy.networks.mps import MPS
+    models = [('XXZ', lambda L: XXZChain({'L': L, 'Jxx': 1., 'Jz': 0.7, 'hz': 0.1, 'bc_MPS': 'finite'})),
+              ('Fermion(complex J)', lambda L: FermionChain({'L': L, 'J': np.exp(0.3j), 'V': 0.5, 'mu': 0.2, 'bc_MPS': 'finite'}))]
+    for mname, mk in models:
+        for L in ((4,) if quick else (3, 4, 5)):
+            M = mk(L)
+            sites = M.lat.mps_sites()
+            st = sites[0]
+            for use_sector in (True, False):
+                for cplx in (True, False):
+                    inp = {'model': mname, 'L': L, 'charge_sector': use_sector, 'complex_state': cplx}
+                    rec.begin(f'C07 ExactDiag conversions {inp}')
+                    v = mpsgen.random_state_vector(rng, sites, complex_=cplx)
+                    import tenpy.linalg.np_conserved as npc
+                    legs = [x.leg for x in sites]
+                    a = npc.Array.from_ndarray(v, legs, labels=[f'p{i}' for i in range(L)], qtotal=npc.detect_qtotal(v, legs))
+                    psi = MPS.from_full(sites, a, form='B', cutoff=1e-14, normalize=False)
+                    q = psi.get_total_charge(True)
+                    ok, ed = rec.guarded('ExactDiag:exception', lambda: ExactDiag(M, charge_sector=q if use_sector else None), inp)
+                    rec.case(('exact_diag', mname, L, use_sector, cplx), True)
+                    if not ok:
+                        continue
+                    ok, full = rec.guarded('ExactDiag.mps_to_full:exception', lambda: ed.mps_to_full(psi), inp)
+                    if not ok:
+                        continue
+                    ok, back = rec.guarded('ExactDiag.full_to_mps:exception', lambda: ed.full_to_mps(full), inp)
+                    if ok:
+                        d = mpsgen.dense_state(back)
+                        rec.check(d.shape == v.shape and np.allclose(d, v, atol=1e-10), 'ExactDiag.full_to_mps(mps_to_full(psi)):state',
+                                  f'max dev {np.abs(d - v).max() if d.shape == v.shape else "shape"}', inp)
+                        rec.check(abs(back.overlap(psi) - 1) < 1e-10, 'ExactDiag.full_to_mps:overlap', str(back.overlap(psi)), inp)
+            # eigenvector of the full Hamiltonian -> MPS: energy expectation value equals the eigenvalue
+            ed = ExactDiag(M, charge_sector=None)
+            ed.build_full_H_from_mpo()
+            ed.full_diagonalization()
+            E0, v0 = ed.groundstate()
+            p0 = ed.full_to_mps(v0)
+            rec.check(abs(M.H_MPO.expectation_value(p0) - E0) < 1e-9, 'ExactDiag.full_to_mps(groundstate):energy',
+                      f'{M.H_MPO.expectation_value(p0)} vs {E0}', {'model': mname, 'L': L})
 
 
 def infinite(rec, rng, quick):
